@@ -103,6 +103,12 @@ check('C19', 'exploration', 'before/after oracle from the statement on split_pip
       'skeletonize is judged for protected elements, total demand at every pattern instant and the skeleton map.',
       'Hydraulic equality of a split is judged to Newton-convergence tolerance; a minor-loss mechanism test separates the documented minor-loss copy from other causes.', 'DESIGN.md#C19')
 
+check('C07', 'exploration', 'model-level sweep of every junction\'s pdd row through the compiled evaluator (230 pressures per junction) + system-level checker of reported (pressure, demand) on rigs and random PDD networks, against the documented curve',
+      'Per junction the head variable is swept from Pmin-50 to Preq+50 (dense at the four breakpoints) and f(p) = -residual/D is judged: 0 below Pmin, 1 above Preq, '
+      'power law between the bands, inside a band between its end values, non-decreasing, no jump larger than 3 x the steepest ideal slope x step; global and per-junction '
+      'Pmin/Preq/exponent in any combination; reservoir-head sweeps on rigs and random networks check the reported demands against the same curve.',
+      'Band width 0.05 m as documented; ranges narrower than two bands are a separate bucket (known finding).', 'DESIGN.md#C07')
+
 NOT_YET = 'monitor not built yet in this commit (planned in DESIGN.md section 4)'
 ALL = ['C%02d' % i for i in range(1, 21)]
 
